@@ -14,6 +14,8 @@ pub struct Bytes<'a> {
 impl<'a> Bytes<'a> {
     #[inline]
     pub fn new(slice: &'a [u8]) -> Bytes<'a> {
+        #[cfg(all(httparse_verif, feature = "std"))]
+        verif_counters::NEW.with(|c| c.set(c.get() + 1));
         let start = slice.as_ptr();
         // SAFETY: obtain pointer to slice end; start points to slice start.
         let end = unsafe { start.add(slice.len()) };
@@ -33,6 +35,8 @@ impl<'a> Bytes<'a> {
 
     #[inline]
     pub fn peek(&self) -> Option<u8> {
+        #[cfg(all(httparse_verif, feature = "std"))]
+        verif_counters::PEEK.with(|c| c.set(c.get() + 1));
         if self.cursor < self.end {
             // SAFETY:  bounds checked
             Some(unsafe { *self.cursor })
@@ -50,6 +54,8 @@ impl<'a> Bytes<'a> {
     /// and `self.cursor.add(n)` is either `self.end` or points to a valid byte.
     #[inline]
     pub unsafe fn peek_ahead(&self, n: usize) -> Option<u8> {
+        #[cfg(all(httparse_verif, feature = "std"))]
+        verif_counters::PEEK_AHEAD.with(|c| c.set(c.get() + 1));
         debug_assert!(n <= self.len());
         // SAFETY: by preconditions
         let p = unsafe { self.cursor.add(n) };
@@ -64,6 +70,8 @@ impl<'a> Bytes<'a> {
 
     #[inline]
     pub fn peek_n<'b: 'a, U: TryFrom<&'a [u8]>>(&'b self, n: usize) -> Option<U> {
+        #[cfg(all(httparse_verif, feature = "std"))]
+        verif_counters::PEEK_N.with(|c| c.set(c.get() + 1));
         // TODO: once we bump MSRV, use const generics to allow only [u8; N] reads
         // TODO: drop `n` arg in favour of const
         // let n = core::mem::size_of::<U>();
@@ -87,6 +95,8 @@ impl<'a> Bytes<'a> {
     /// Caller must ensure that Bytes hasn't been advanced/bumped by more than [`Bytes::len()`].
     #[inline]
     pub unsafe fn advance(&mut self, n: usize) {
+        #[cfg(all(httparse_verif, feature = "std"))]
+        verif_counters::count_advance(n);
         self.cursor = self.cursor.add(n);
         debug_assert!(self.cursor <= self.end, "overflow");
     }
@@ -103,6 +113,8 @@ impl<'a> Bytes<'a> {
 
     #[inline]
     pub fn slice(&mut self) -> &'a [u8] {
+        #[cfg(all(httparse_verif, feature = "std"))]
+        verif_counters::SLICE.with(|c| c.set(c.get() + 1));
         // SAFETY: not moving position at all, so it's safe
         let slice = unsafe { slice_from_ptr_range(self.start, self.cursor) };
         self.commit();
@@ -117,6 +129,8 @@ impl<'a> Bytes<'a> {
     /// implies a skip of at most 3).
     #[inline]
     pub unsafe fn slice_skip(&mut self, skip: usize) -> &'a [u8] {
+        #[cfg(all(httparse_verif, feature = "std"))]
+        verif_counters::SLICE.with(|c| c.set(c.get() + 1));
         debug_assert!(skip <= self.cursor.offset_from(self.start) as usize);
         let head = slice_from_ptr_range(self.start, self.cursor.sub(skip));
         self.commit();
@@ -157,6 +171,8 @@ impl<'a> Bytes<'a> {
     /// Must ensure invariant `bytes.start() <= ptr && ptr <= bytes.end()`.
     #[inline]
     pub unsafe fn set_cursor(&mut self, ptr: *const u8) {
+        #[cfg(all(httparse_verif, feature = "std"))]
+        verif_counters::count_set_cursor(ptr < self.cursor);
         debug_assert!(ptr >= self.start);
         debug_assert!(ptr <= self.end);
         self.cursor = ptr;
@@ -166,6 +182,8 @@ impl<'a> Bytes<'a> {
 impl AsRef<[u8]> for Bytes<'_> {
     #[inline]
     fn as_ref(&self) -> &[u8] {
+        #[cfg(all(httparse_verif, feature = "std"))]
+        verif_counters::AS_REF.with(|c| c.set(c.get() + 1));
         // SAFETY: not moving position at all, so it's safe
         unsafe { slice_from_ptr_range(self.cursor, self.end) }
     }
@@ -185,6 +203,8 @@ impl Iterator for Bytes<'_> {
 
     #[inline]
     fn next(&mut self) -> Option<u8> {
+        #[cfg(all(httparse_verif, feature = "std"))]
+        verif_counters::NEXT.with(|c| c.set(c.get() + 1));
         if self.cursor < self.end {
             // SAFETY: bounds checked dereference
             unsafe {
@@ -194,6 +214,73 @@ impl Iterator for Bytes<'_> {
             }
         } else {
             None
+        }
+    }
+}
+
+/// Verification hooks: per-thread counters of cursor operations.
+#[cfg(all(httparse_verif, feature = "std"))]
+#[allow(missing_docs)]
+pub mod verif_counters {
+    use std::cell::Cell;
+
+    thread_local! {
+        pub static NEW: Cell<u64> = const { Cell::new(0) };
+        pub static NEXT: Cell<u64> = const { Cell::new(0) };
+        pub static PEEK: Cell<u64> = const { Cell::new(0) };
+        pub static PEEK_AHEAD: Cell<u64> = const { Cell::new(0) };
+        pub static PEEK_N: Cell<u64> = const { Cell::new(0) };
+        pub static AS_REF: Cell<u64> = const { Cell::new(0) };
+        pub static SLICE: Cell<u64> = const { Cell::new(0) };
+        pub static ADVANCE: Cell<u64> = const { Cell::new(0) };
+        pub static ADVANCE_BYTES: Cell<u64> = const { Cell::new(0) };
+        pub static SET_CURSOR: Cell<u64> = const { Cell::new(0) };
+        pub static SET_CURSOR_BACKWARD: Cell<u64> = const { Cell::new(0) };
+    }
+
+    #[derive(Clone, Copy, Debug, Default, PartialEq, Eq)]
+    pub struct Counters {
+        pub new: u64,
+        pub next: u64,
+        pub peek: u64,
+        pub peek_ahead: u64,
+        pub peek_n: u64,
+        pub as_ref: u64,
+        pub slice: u64,
+        pub advance: u64,
+        pub advance_bytes: u64,
+        pub set_cursor: u64,
+        pub set_cursor_backward: u64,
+    }
+
+    #[inline]
+    pub fn count_advance(n: usize) {
+        ADVANCE.with(|c| c.set(c.get() + 1));
+        ADVANCE_BYTES.with(|c| c.set(c.get() + n as u64));
+    }
+
+    #[inline]
+    pub fn count_set_cursor(backward: bool) {
+        SET_CURSOR.with(|c| c.set(c.get() + 1));
+        if backward {
+            SET_CURSOR_BACKWARD.with(|c| c.set(c.get() + 1));
+        }
+    }
+
+    /// Returns the counters of the calling thread and resets them to zero.
+    pub fn take() -> Counters {
+        Counters {
+            new: NEW.with(|c| c.replace(0)),
+            next: NEXT.with(|c| c.replace(0)),
+            peek: PEEK.with(|c| c.replace(0)),
+            peek_ahead: PEEK_AHEAD.with(|c| c.replace(0)),
+            peek_n: PEEK_N.with(|c| c.replace(0)),
+            as_ref: AS_REF.with(|c| c.replace(0)),
+            slice: SLICE.with(|c| c.replace(0)),
+            advance: ADVANCE.with(|c| c.replace(0)),
+            advance_bytes: ADVANCE_BYTES.with(|c| c.replace(0)),
+            set_cursor: SET_CURSOR.with(|c| c.replace(0)),
+            set_cursor_backward: SET_CURSOR_BACKWARD.with(|c| c.replace(0)),
         }
     }
 }
